@@ -58,8 +58,10 @@ class NetModel:
             a = alts(ev.class_const(self.cls, n))
             self.E[n] = a[0] if a else None
 
-    def step(self, handler, state, connected, args=()):
-        """run one handler from (state, connected): -> (state', connected', effects, raised)"""
+    def step(self, handler, state, connected, args=(), sync=False):
+        """run one handler from (state, connected): -> (state', connected', effects, raised).
+        sync: the dispatcher reports the close from inside disconnect() (the asyncore dispatcher always does, the socket
+        dispatcher does when shutdown fails) - the layer's onDisconnected runs re-entrantly at that point."""
         it = Interp(self.repo, {}, {}, hooks=self.runner.hooks())
         it.layer_base = self.runner.base
         it.pure_depth = 0
@@ -70,6 +72,11 @@ class NetModel:
         it.hooks["method:__create_dispatcher"] = lambda *a: ("ext", "dispatcher", [])     # the dispatcher is the environment
         it.effects[:] = []
         raised = None
+        if sync:
+            def reenter(itp, recv, a, k, env, depth, e):
+                itp.method_call(layer, "onDisconnected", [], {}, {"@module": self.cls.module, "@owner": self.cls}, depth + 1, None)
+                return C_NONE
+            it.hooks["ext:dispatcher.disconnect"] = reenter
         try:
             it.method_call(layer, handler, list(args), {}, {"@module": self.cls.module, "@owner": self.cls}, 0, None)
         except _Raise as r:
@@ -98,14 +105,17 @@ def rule_inv(ctx):
     mk_event = lambda: ("obj", _event_obj(ctx.repo))
     handlers = {"onConnected": (), "onDisconnected": (), "onConnectionError": (("c", "err"),), "onConnectLayerEvent": "ev", "onDisconnectLayerEvent": "ev", "send": (("c", b"x"),)}
     # transformers for every (state, connected)
-    T = {}
+    T, TS = {}, {}
     for h, args in handlers.items():
         for st in S.values():
             for co in (False, True):
                 a = (mk_event(),) if args == "ev" else args
                 T[(h, st, co)] = m.step(h, st, co, a)
-    ctx.units["C16.transformers"] = len(T)
-    bad_raise = [(k, v[3]) for k, v in T.items() if v[3] and v[3].startswith("undecided")]
+                if ("DISP", "disconnect") in T[(h, st, co)][2]:
+                    a = (mk_event(),) if args == "ev" else args
+                    TS[(h, st, co)] = m.step(h, st, co, a, sync=True)
+    ctx.units["C16.transformers"] = len(T) + len(TS)
+    bad_raise = [(k, v[3]) for k, v in list(T.items()) + list(TS.items()) if v[3] and v[3].startswith("undecided")]
     if bad_raise:
         ctx.undecided("C16.inv", w, "handler %s" % bad_raise[0][0][0], "handler depends on more than (state, connected): %s" % bad_raise[0][1])
         return
@@ -116,7 +126,9 @@ def rule_inv(ctx):
             ctx.check("C16.inv", wrote == bool(co), where(NET, "YowNetworkLayer.send", None), "send with state=%s connected=%s" % (st, co),
                       "data is %s although connected is %s" % ("written" if wrote else "dropped", co), "written iff connected")
     # exhaustive exploration: product with the environment's socket state and the announced flag
-    init = (DISC, False, "none", False)
+    # announced: "down" (no connection, or the last one was announced as down), "never" (a connection was requested but
+    # not announced yet), "up"
+    init = (DISC, False, "none", "down")
     seen = {init: None}
     todo = [init]
     viol = []
@@ -139,49 +151,60 @@ def rule_inv(ctx):
         s = todo.pop()
         st, co, sock, ann = s
         for h in env_events(sock, st):
-            st2, co2, effs, raised = T[(h, st, co)]
-            if raised:
-                viol.append((s, h, "handler raises: %s" % raised))
-                continue
-            sock2 = sock
-            if h == "onConnected":
-                sock2 = "up"
-            elif h in ("onDisconnected", "onConnectionError"):
-                sock2 = "none"
-            ann2 = ann
-            for e in effs:
-                if e == ("DISP", "connect"):
-                    if sock2 != "none":
-                        viol.append((s, h, "a second connection is opened while one exists"))
-                    sock2 = "connecting"
-                elif e == ("DISP", "disconnect"):
-                    if sock2 in ("up", "connecting"):
-                        sock2 = "closing"
-                elif e == ("DISP", "sendData"):
-                    if not ann:
-                        viol.append((s, h, "data is written to a connection that was not announced as up (or already announced as down)"))
-                elif e == ("EMIT", E["EVENT_STATE_CONNECTED"]):
-                    if ann2:
-                        viol.append((s, h, "CONNECTED announced twice without a DISCONNECTED in between"))
-                    ann2 = True
-                elif e == ("EMIT", E["EVENT_STATE_DISCONNECTED"]):
-                    if st == DISC:
-                        viol.append((s, h, "DISCONNECTED emitted although the layer already was in the disconnected state"))
-                    ann2 = False
-            ntrans += 1
-            s2 = (st2, co2, sock2, ann2)
-            # invariants of the successor
-            if co2 and not ann2:
-                viol.append((s, h, "connected flag is set although no CONNECTED was announced"))
-            if co2 and st2 not in (CONNECTED, DISCONNECTING):
-                viol.append((s, h, "connected flag set in state %s" % st2))
-            if ann2 and sock2 == "none":
-                viol.append((s, h, "the connection went away but no DISCONNECTED was announced for a connection announced as up"))
-            if sock2 == "none" and st2 != DISC and h in ("onDisconnected", "onConnectionError"):
-                viol.append((s, h, "after the connection is gone the layer stays in state %s: a later connect request does not start fresh" % st2))
-            if s2 not in seen:
-                seen[s2] = (s, h)
-                todo.append(s2)
+            modes = [("", T[(h, st, co)])]
+            if (h, st, co) in TS and sock in ("up", "connecting", "closing"):
+                modes.append((" [dispatcher reports the close from inside disconnect()]", TS[(h, st, co)]))
+            for mode, (st2, co2, effs, raised) in modes:
+                hl = h + mode
+                if raised:
+                    viol.append((s, hl, "handler raises: %s" % raised))
+                    continue
+                sock2 = sock
+                gone = h in ("onDisconnected", "onConnectionError")
+                if h == "onConnected":
+                    sock2 = "up"
+                elif gone:
+                    sock2 = "none"
+                ann2 = ann
+                for e in effs:
+                    if e == ("DISP", "connect"):
+                        if sock2 != "none":
+                            viol.append((s, hl, "a second connection is opened while one exists"))
+                        sock2 = "connecting"
+                        if ann2 == "up":
+                            viol.append((s, hl, "a new connection is opened although the previous one was never announced as down"))
+                        ann2 = "never"
+                    elif e == ("DISP", "disconnect"):
+                        if mode:
+                            sock2 = "none"
+                            gone = True
+                        elif sock2 in ("up", "connecting"):
+                            sock2 = "closing"
+                    elif e == ("DISP", "sendData"):
+                        if ann2 != "up":
+                            viol.append((s, hl, "data is written to a connection that was not announced as up (or already announced as down)"))
+                    elif e == ("EMIT", E["EVENT_STATE_CONNECTED"]):
+                        if ann2 == "up":
+                            viol.append((s, hl, "CONNECTED announced twice without a DISCONNECTED in between"))
+                        ann2 = "up"
+                    elif e == ("EMIT", E["EVENT_STATE_DISCONNECTED"]):
+                        if ann2 == "down":
+                            viol.append((s, hl, "DISCONNECTED is announced a second time for the same connection"))
+                        ann2 = "down"
+                ntrans += 1
+                s2 = (st2, co2, sock2, ann2)
+                # invariants of the successor
+                if co2 and ann2 != "up":
+                    viol.append((s, hl, "connected flag is set although no CONNECTED was announced"))
+                if co2 and st2 not in (CONNECTED, DISCONNECTING):
+                    viol.append((s, hl, "connected flag set in state %s" % st2))
+                if ann2 == "up" and sock2 == "none":
+                    viol.append((s, hl, "the connection went away but no DISCONNECTED was announced for a connection announced as up"))
+                if sock2 == "none" and st2 != DISC and gone:
+                    viol.append((s, hl, "after the connection is gone the layer stays in state %s: a later close report is announced again and a later connect does not start fresh" % st2))
+                if s2 not in seen:
+                    seen[s2] = (s, hl)
+                    todo.append(s2)
     ctx.units["C16.states"] = len(seen)
     ctx.units["C16.transitions"] = ntrans
     if viol:
@@ -404,12 +427,59 @@ def rule_ping(ctx, tier):
         ctx.violate("C16.ping", w, "waitPong / gotPong histories (length <= %d)" % maxlen, "%s in history %s" % (bad[0][1], list(bad[0][0])))
     else:
         ctx.hold("C16.ping", w, "waitPong / gotPong histories (length <= %d)" % maxlen, "%d histories: disconnect exactly when a second ping is outstanding; a pong clears only when its id is outstanding" % n)
-    # thread: started on authed when interval > 0 and none running; stopped on both disconnect events; wait precedes send
+    # thread: started on authed when interval > 0 and none running - by abstract execution of onAuthed from a state whose
+    # bookkeeping still holds an entry of the previous connection (a ping registered while the old thread was dying)
     fn = repo.method(IQL, "YowIqProtocolLayer", "onAuthed")
-    src = unparse(fn)
-    tests = [n_ for n_ in ast.walk(fn) if isinstance(n_, ast.If)]
-    ok = len(tests) == 1 and "interval > 0" in unparse(tests[0].test) and "not self._pingThread" in unparse(tests[0].test) and ".start()" in src
-    ctx.check("C16.ping", ok, where(IQL, "YowIqProtocolLayer.onAuthed", fn.lineno), "keep-alive started on authed", "the ping thread must start on authed when the interval is positive and none is running", "started iff interval > 0 and no thread")
+    wa = where(IQL, "YowIqProtocolLayer.onAuthed", fn.lineno)
+    for label, thread in (("no keep-alive running", C_NONE), ("keep-alive already running", ("ext", "oldthread", []))):
+        def run2(cell, domains, thread=thread):
+            runner2 = LayerRunner(repo, {})
+            hooks = runner2.hooks()
+            it = Interp(repo, cell, domains, hooks=hooks)
+            it.layer_base = runner2.base
+            layer = runner2.make_layer(it, cls)
+            layer[1].fields["_pingQueue"] = ("dict", {"stale-ping": C_NONE})
+            layer[1].fields["_pingThread"] = thread
+            snap = []
+
+            def start_hook2(itp, recv, a, k, env, d, e):
+                q = layer[1].fields.get("_pingQueue")
+                snap.append((recv, dict(q[1]) if q and q[0] == "dict" else None))
+                return C_NONE
+            it.hooks["method:start"] = start_hook2
+            it.effects[:] = []
+            raised = None
+            try:
+                it.method_call(layer, "onAuthed", [("obj", _event_obj(repo))], {}, {"@module": cls.module, "@owner": cls}, 0, None)
+            except _Raise as r_:
+                raised = r_.text
+            return {"raised": raised, "starts": snap, "layer": layer}, it
+        try:
+            cells = enumerate_cells(run2, {}, max_cells=50)
+        except Budget:
+            ctx.undecided("C16.ping", wa, "keep-alive start, " + label, "budget exceeded")
+            continue
+        bad = []
+        for cell, r in cells:
+            pos = [v for k_, v in cell.items() if k_[0] == "F" and "Gt 0" in k_[1]]
+            positive = bool(pos and pos[0])
+            want = thread == C_NONE and positive
+            if r["raised"]:
+                bad.append("raises %s" % r["raised"][:60])
+                continue
+            if want:
+                if len(r["starts"]) != 1:
+                    bad.append("with a positive interval and no thread running, %d threads are started" % len(r["starts"]))
+                    continue
+                recv, q = r["starts"][0]
+                t = r["layer"][1].fields.get("_pingThread")
+                if not (recv[0] == "obj" and recv[1].cls is not None and recv[1].cls.name == "YowPingThread" and t is not None and t[0] == "obj" and t[1] is recv[1]):
+                    bad.append("the started thread is not the YowPingThread the layer remembers")
+                if q is None or len(q) != 0:
+                    bad.append("the keep-alive of a new connection starts with ping bookkeeping left over from the previous one (%s): its first ping already counts as the second outstanding one and closes the connection" % sorted(map(str, q or ["?"])))
+            elif r["starts"]:
+                bad.append("a thread is started although %s" % ("one is running" if thread != C_NONE else "the interval is not positive"))
+        ctx.check("C16.ping", not bad, wa, "keep-alive start, " + label, "; ".join(sorted(set(bad))[:2]), "%d cell(s): started iff interval > 0 and none running, with empty bookkeeping" % len(cells))
     EVD = alts(Evaluator(repo, net.module, net).class_const(net, "EVENT_STATE_DISCONNECTED"))[0]
     stops = set()
     for name, f in cls.methods.items():
